@@ -27,6 +27,19 @@ reg("C16",
                  "the code is data-race free: only synchronisation operations are scheduling points"],
     )
 
+reg("C16",
+    name="C16_queue_mt_stop", src="harness/C16_queue_mt.cpp", threads=True,
+    anchor_files=["src/hgraph/runtime/push_source_node.cpp", "src/hgraph/runtime/executor.cpp"],
+    quick=dict(defs=dict(NPROD=2, MSGS=1, PREFILL=1, FIX_SCENARIO=1, WIN_US=30), symx=dict(shards=8, **{"max-wall": 900, "max-preempt": 1, "shard-depth": 8}), validate=4),
+    thorough=dict(defs=dict(NPROD=3, MSGS=1, PREFILL=1, FIX_SCENARIO=1, WIN_US=30), symx=dict(shards=16, **{"max-wall": 2400, "max-preempt": 1, "shard-depth": 10}), validate=6),
+    reach=["end", "run_returned", "stopper_present"],
+    bounds="fixed scenario: bounded queue of 1 pre-filled from the start callback, NPROD producer threads each blocking in send_blocking, a stopper thread; every "
+           "interleaving at synchronisation operations with at most one preemptive switch: several senders are blocked when the source stops and all of them must be released",
+    outside="more preemptions; other capacities (C16_queue_mt); data races",
+    assumptions=["threads are symx interpreter threads; counterexamples are re-executed concretely inside symx along the recorded schedule",
+                 "the code is data-race free: only synchronisation operations are scheduling points"],
+    )
+
 META = dict(
     level="bounded symbolic model checking of the queue push source (push_source_node.cpp QueuePolicyStorage, sender control, emit path) inside the real real-time executor, "
           "with the producer acting at every wait point, in the start callback and during evaluation",
